@@ -66,31 +66,41 @@ def run(tier):
         if tier == "thorough":
             ex = progs.expand_all(table, behs[:300], core.seed(), ["none"])
             b300, ex = progs.drop_skipped(behs[:300], ex)
-            tasks, metas = [], []
+            lays = []
             for b, e in zip(b300, ex):
                 gaps = [k for k, g in enumerate(e["gaps"]) if g in ("free", "sep")]
-                lay = ["none"] + ["gap:%d:%s" % (g, rec) for g in gaps for rec in recipes if rec not in ("none",)]
-                metas.append((b, lay))
-            for (b, lay) in metas:
-                pass
-            for chunk in range(0, len(metas), 50):
-                sub = metas[chunk:chunk + 50]
-                for (b, lay) in sub:
-                    ex1 = progs.expand_all(table, [b], core.seed(), lay)[0]
-                    ts = [{"op": "cmp_tree", "src": v["src"], "ver": progs.VERS[family][0]} for v in ex1["variants"]]
-                    rs = wp.run(ts)
-                    base = rs[0]
-                    if base.get("panic") or base.get("hang") or base.get("nerr", 1) > 0:
-                        continue
-                    for v, t, r in zip(ex1["variants"][1:], ts[1:], rs[1:]):
-                        check.count()
-                        if r.get("panic") or r.get("hang") or r.get("crash"):
-                            continue
-                        rec = v["layout"].split(":")[2]
-                        if r.get("nerr", 1) > 0 or r.get("sfp") != base.get("sfp"):
-                            check.violation({"class": "trivia-makes-program-invalid" if r.get("nerr", 1) > 0 else "trivia-changes-structure",
-                                             "recipe": rec, "msg": ((r.get("errs") or [{}])[0].get("msg") or "")[:50]},
-                                            {"minimal": ts[0]["src"], "rendered": t["src"], "gap": v["layout"], "errors": r.get("errs")})
+                lays.append(["none"] + ["gap:%d:%s" % (g, rec) for g in gaps for rec in recipes if rec not in ("none",)])
+            # expand every derivation under its own layout list (one pool call), then run everything in one batch
+            import multiprocessing
+            args = [(b, core.seed() * 1000003 + i, lay) for i, (b, lay) in enumerate(zip(b300, lays))]
+            with multiprocessing.Pool(min(core.NCPU, 16), initializer=progs._init, initargs=(table,)) as pool:
+                ex1s = pool.map(progs._expand, args, chunksize=4)
+            ts, owner = [], []
+            for di, ex1 in enumerate(ex1s):
+                if ex1.get("skip") or ex1.get("error"):
+                    continue
+                for v in ex1["variants"]:
+                    ts.append({"op": "cmp_tree", "src": v["src"], "ver": progs.VERS[family][0]})
+                    owner.append((di, v["layout"]))
+            rs = wp.run(ts)
+            base = {}
+            for (di, lay), t, r in zip(owner, ts, rs):
+                if lay == "none":
+                    base[di] = (t, r)
+            for (di, lay), t, r in zip(owner, ts, rs):
+                if lay == "none" or di not in base:
+                    continue
+                bt, br = base[di]
+                if br.get("panic") or br.get("hang") or br.get("crash") or br.get("nerr", 1) > 0:
+                    continue
+                check.count()
+                if r.get("panic") or r.get("hang") or r.get("crash"):
+                    continue
+                rec = lay.split(":")[2]
+                if r.get("nerr", 1) > 0 or r.get("sfp") != br.get("sfp"):
+                    check.violation({"class": "trivia-makes-program-invalid" if r.get("nerr", 1) > 0 else "trivia-changes-structure",
+                                     "recipe": rec, "msg": ((r.get("errs") or [{}])[0].get("msg") or "")[:50]},
+                                    {"minimal": bt["src"], "rendered": t["src"], "gap": lay, "errors": r.get("errs")})
     # the scanner reads  ';' white-space* '?>'  as one token, so SyntaxGen never puts a close tag right after a ';'; the gap between
     # the two is exercised here: white space keeps the structure, and so must a comment
     for ver in ("7.4", "5.6"):
